@@ -1055,10 +1055,10 @@ C("_notice_of_completion", arg_types=SELF, props=("C15", "C01", "C11"), result=N
           isnone(n.self._params.finished_params), n.self._params.fp.progress == 0, Not_(B(n.self._params.fp.metadata_only)),
           Not_(B(n.self._params.fp.empty_file)), opt(n.self._params.fp.file_size, lambda s: s == 0, False),
           isnone(n.self._params.positive_ack_params.ack_timer), n.self._params.positive_ack_params.ack_counter == 0,
-          Not_(B(n.self._params.closure_requested))), ("C11", "C02")),
+          Not_(B(n.self._params.closure_requested))), ("C11", "C02", "C07")),
       Clause("C15.nothing_else", lambda o, n, r: len(emitted(n)) == 0 and len(fault_cbs(n)) == 0 and
              len(inds(n)) == len(inds(n, "transaction_finished_indication")), ("C15",)),
-  ] + inv_clauses(("C11",)),
+  ] + inv_clauses(("C11", "C07")),
   effects={"user"}, modular=False)
 
 
@@ -1407,8 +1407,9 @@ def _fresh_params(n):
 C("_reset_internal", arg_types={**SELF, "clear_packet_queue": T.Bool}, props=("C11",), result=None,
   requires=[], modifies=NOC_MOD,
   ensures=[
+      # (C07 relies on it: the next transaction tiles its file from offset 0)
       Clause("C11.src.reset_restores_constructor_values", lambda o, n, r: And_(
-          eq(n.self.states.state, IDLE), eq(n.self.states.step, STEP.IDLE), _fresh_params(n)), ("C11",)),
+          eq(n.self.states.state, IDLE), eq(n.self.states.step, STEP.IDLE), _fresh_params(n)), ("C11", "C07")),
       Clause("C11.src.queue_cleared_iff_asked", lambda o, n, r: And_(
           Implies_(B(o.clear_packet_queue), qlen(n.self) == 0),
           Implies_(Not_(B(o.clear_packet_queue)), qlen(n.self) == qlen(o.self))), ("C11",)),
